@@ -266,3 +266,58 @@ M("r14-core-symb-table-stale", ["C12"], "break",
     "      core_symb_table\n	= (struct core_symb_vect ***) VLO_BEGIN (core_symb_table_vlo);\n      bound = (struct core_symb_vect ***) VLO_BOUND (core_symb_table_vlo);")], "core_symb_vect_addr_get/")
 M("r14-toks-cache-not-refreshed", ["C12"], "break",
   [("yaep.c", "  VLO_ADD_MEMORY (toks_vlo, &tok, sizeof (struct tok));\n  toks = (struct tok *) VLO_BEGIN (toks_vlo);", "  VLO_ADD_MEMORY (toks_vlo, &tok, sizeof (struct tok));")], "toks")
+
+# ---- C10 ------------------------------------------------------------------------------------------
+M("c10-negative-code-lt-minus1", ["C10"], "break", [("yaep.c", "      if (code < 0)\n	yaep_error (YAEP_NEGATIVE_TERM_CODE", "      if (code < -1)\n	yaep_error (YAEP_NEGATIVE_TERM_CODE")], "YAEP_NEGATIVE_TERM_CODE")
+M("c10-negative-cost-le", ["C10"], "break", [("yaep.c", "if (anode != NULL && anode_cost < 0)", "if (anode != NULL && anode_cost <= 0)")], "YAEP_NEGATIVE_COST")
+M("c10-drop-repeated-code-check", ["C10"], "break",
+  [("yaep.c", "      if (symb_find_by_code (code) != NULL)\n	yaep_error (YAEP_REPEATED_TERM_CODE,\n		    \"repeated code %d in term `%s'\", code, name);\n", "")], "table/YAEP_REPEATED_TERM_CODE")
+M("c10-revert-F20-rhs", ["C10"], "break",
+  [("yaep.c", "	  else if (symb == grammar->axiom || symb == grammar->end_marker)\n	    yaep_error (YAEP_FIXED_NAME_USAGE,\n			\"do not use fixed name `%s'\", *rhs);\n", "")], "table/YAEP_FIXED_NAME_USAGE/5")
+M("c10-F20-only-axiom", ["C10"], "break",
+  [("yaep.c", "	  else if (symb == grammar->axiom || symb == grammar->end_marker)", "	  else if (symb == grammar->axiom)")], "YAEP_FIXED_NAME_USAGE")
+M("c10-incorrect-translation-weaker", ["C10"], "break",
+  [("yaep.c", "if (anode == NULL && transl != NULL && *transl >= 0 && transl[1] >= 0)", "if (anode == NULL && transl != NULL && *transl > 0 && transl[1] >= 0)")], "YAEP_INCORRECT_TRANSLATION")
+M("c10-symbol-number-gt", ["C10"], "break",
+  [("yaep.c", "	    if (el >= rule->rhs_len)", "	    if (el > rule->rhs_len)")], "YAEP_INCORRECT_SYMBOL_NUMBER")
+M("c10-unaccessible-in-nonstrict", ["C10"], "break",
+  [("yaep.c", "	  else if (!symb->access_p)\n	    yaep_error (YAEP_UNACCESSIBLE_NONTERM,", "	  else if (symb->access_p)\n	    yaep_error (YAEP_UNACCESSIBLE_NONTERM,")], "YAEP_UNACCESSIBLE_NONTERM")
+M("c10-loop-check-dropped", ["C10"], "break",
+  [("yaep.c", "  for (i = 0; (symb = nonterm_get (i)) != NULL; i++)\n    if (symb->u.nonterm.loop_p)\n      yaep_error\n	(YAEP_LOOP_NONTERM,\n	 \"nonterm `%s' can derive only itself (grammar with loops)\",\n	 symb->repr);\n", "")], "table/YAEP_LOOP_NONTERM")
+M("c10-nonstrict-checks-every-nonterm", ["C10"], "break",
+  [("yaep.c", "  else if (!grammar->axiom->derivation_p)", "  else if (grammar->axiom->derivation_p)")], "YAEP_NONTERM_DERIVATION")
+M("c10-no-rules-check-dropped", ["C10"], "break",
+  [("yaep.c", "  if (grammar->axiom == NULL)\n    yaep_error (YAEP_NO_RULES, \"grammar does not contains rules\");\n", "")], "table/YAEP_NO_RULES")
+M("c10-term-lhs-dropped", ["C10"], "break",
+  [("yaep.c", "      else if (symb->term_p)\n	yaep_error (YAEP_TERM_IN_RULE_LHS,\n		    \"term `%s' in the left hand side of rule\", lhs);\n      else if (symb == grammar->axiom)", "      else if (symb == grammar->axiom)")], "table/YAEP_TERM_IN_RULE_LHS")
+M("c10-benign-reversed-comparison", ["C10"], "benign",
+  [("yaep.c", "      if (code < 0)\n	yaep_error (YAEP_NEGATIVE_TERM_CODE", "      if (0 > code)\n	yaep_error (YAEP_NEGATIVE_TERM_CODE")])
+M("c10-benign-le-minus1", ["C10"], "benign",
+  [("yaep.c", "if (anode != NULL && anode_cost < 0)", "if (anode != NULL && anode_cost <= -1)")])
+M("r10-flag-dropped-from-condition", ["C10"], "break",
+  [("yaep.c", "  while (empty_changed_p || derivation_changed_p || accessibility_change_p);", "  while (empty_changed_p || derivation_changed_p);")], "accessibility_change_p")
+M("r10-old-value-after-store", ["C10"], "break",
+  [("yaep.c", "		    empty_changed_p |= symb->empty_p ^ empty_p;\n		    symb->empty_p = empty_p;", "		    symb->empty_p = empty_p;\n		    empty_changed_p |= symb->empty_p ^ empty_p;")], "old-value-of-empty_p")
+M("r10-derivation-old-value-after-store", ["C10"], "break",
+  [("yaep.c", "		    derivation_changed_p |= symb->derivation_p ^ derivation_p;\n		    symb->derivation_p = derivation_p;", "		    symb->derivation_p = derivation_p;\n		    derivation_changed_p |= symb->derivation_p ^ derivation_p;")], "old-value-of-derivation_p")
+
+# ---- R8 / R2f (C16, C19) ----------------------------------------------------------------------------
+M("r8-revert-F14", ["C19", "C16"], "break", [("hashtab.cpp", "		  entry_ptr = first_deleted_entry_ptr;\n		  *entry_ptr = EMPTY_ENTRY;", "		  entry_ptr = first_deleted_entry_ptr;\n		  *entry_ptr = DELETED_ENTRY;")], "find_hash_table_entry~")
+M("r2f-revert-F15", ["C19", "C16"], "break", [("hashtab.cpp", "  ::operator delete (new_htab);", "  yaep_free (new_htab->alloc, new_htab);")], "expand_hash_table/new")
+M("r8-cxx-remove-marks-empty", ["C19", "C16"], "break",
+  [("hashtab.cpp", "  assert (*entry_ptr != EMPTY_ENTRY && *entry_ptr != DELETED_ENTRY);\n  *entry_ptr = DELETED_ENTRY;", "  assert (*entry_ptr != EMPTY_ENTRY && *entry_ptr != DELETED_ENTRY);\n  *entry_ptr = EMPTY_ENTRY;")], "remove_element_from_hash_table_entry~")
+M("r8-cxx-empty-forgets-deleted-count", ["C19", "C16"], "break",
+  [("hashtab.cpp", "  number_of_elements = 0;\n  number_of_deleted_elements = 0;\n  for (entry_ptr = entries; entry_ptr < entries + _size; entry_ptr++)", "  number_of_elements = 0;\n  for (entry_ptr = entries; entry_ptr < entries + _size; entry_ptr++)")], "empty_hash_table~")
+M("r8-cxx-rehash-skips-last", ["C19", "C16"], "break",
+  [("hashtab.cpp", "  for (entry_ptr = entries; entry_ptr < entries + _size; entry_ptr++)\n    if (*entry_ptr != EMPTY_ENTRY && *entry_ptr != DELETED_ENTRY)", "  for (entry_ptr = entries; entry_ptr < entries + _size - 1; entry_ptr++)\n    if (*entry_ptr != EMPTY_ENTRY && *entry_ptr != DELETED_ENTRY)")], "expand_hash_table~")
+M("r8-c-rehash-copies-deleted", ["C19"], "break",
+  [("hashtab.c", "    if (*entry_ptr != EMPTY_ENTRY && *entry_ptr != DELETED_ENTRY)\n      {\n	new_entry_ptr = find_hash_table_entry", "    if (*entry_ptr != EMPTY_ENTRY)\n      {\n	new_entry_ptr = find_hash_table_entry")], "expand_hash_table~")
+M("r8-cxx-vlo-boundary-not-updated", ["C19", "C16"], "break",
+  [("vlobject.cpp", "  vlo_length += vlo_length / 2 + 1;\n  new_vlo_start = (char *) yaep_realloc (vlo_alloc, vlo_start, vlo_length);\n  if (new_vlo_start != vlo_start)\n    {\n      vlo_free += new_vlo_start - vlo_start;\n      vlo_start = new_vlo_start;\n    }\n  vlo_boundary = vlo_start + vlo_length;",
+    "  vlo_length += vlo_length / 2 + 1;\n  new_vlo_start = (char *) yaep_realloc (vlo_alloc, vlo_start, vlo_length);\n  if (new_vlo_start != vlo_start)\n    {\n      vlo_free += new_vlo_start - vlo_start;\n      vlo_start = new_vlo_start;\n    }")], "_VLO_expand_memory~")
+M("r8-macro-top-expand-ge", ["C19", "C16"], "break",
+  [("objstack.h", "    if (os_top_object_free + length > os_boundary)\n      _OS_expand_memory (length);\n    os_top_object_free += length;", "    if (os_top_object_free + length >= os_boundary)\n      _OS_expand_memory (length);\n    os_top_object_free += length;")], "OS_TOP_EXPAND~")
+M("r8-method-add-byte-no-check", ["C19", "C16"], "break",
+  [("vlobject.h", "    if (vlo_free >= vlo_boundary)\n      _VLO_expand_memory (1);\n    *vlo_free++ = b;", "    *vlo_free++ = b;")], "VLO_ADD_BYTE~")
+M("r8-benign-growth-factor-one-twin", ["C19", "C16"], "benign",
+  [("hashtab.cpp", "    new hash_table (alloc, number_of_elements * 2, hash_function,", "    new hash_table (alloc, number_of_elements * 3, hash_function,")])
